@@ -305,7 +305,14 @@ class ServerSet(object):
       work = self._notification_queue.get()
       self._cb_blocker.ensure_safe()
       try:
-        new_nodes, removed_nodes = work
+        children = work
+        # Work out what changed against the members announced so far, not
+        # against the names that were listed last time: a child that was listed
+        # but vanished before it could be read has not been announced, and must
+        # be looked at again if a later listing shows it (again).
+        known = set(self._members.keys())
+        new_nodes = children - known
+        removed_nodes = known - children
         new_members = self._zk_nodes_to_members(new_nodes)
         # Only announce members that are not known yet: after the watched path
         # was deleted and re-created the same node can be reported by more
@@ -342,9 +349,6 @@ class ServerSet(object):
       children - The new set of child nodes.
     """
     children = set([c for c in children if self._member_filter(c)])
-    current_nodes = set(self._nodes)
     self._nodes = children
-    new_nodes = children - current_nodes
-    removed_nodes = current_nodes - children
     self._log.debug("Queueing notifications")
-    self._notification_queue.put((new_nodes, removed_nodes))
+    self._notification_queue.put(children)
